@@ -59,6 +59,11 @@ CLAIMED = {
          "Static decision over all 2^24 NetIDs x 2^32 DevAddrs at once (BDD equality) of the prefix/NwkID/NwkAddr routing per NetID type, of NwkID extraction, of the leading-ones type decision and of the membership predicate, plus byte-reversal and exact-length tests of the four identifier binary codecs.",
          "Trusts internal/absint and the transcribed addressing table (widths 6,6,9,11,12,13,15,17; ID widths 6,6,9,21).",
          "DESIGN.md §3 C11"),
+
+ "C15": ("SSA dominating-guard rule on channel accessors; who-writes/complement rules on SSA/AST; every band table constant passed through the MAC encoders with the bit-precise abstract interpreter; GetCFList specialised on each configuration's initial channel plan by constant propagation",
+         "Static decision of structural necessary conditions of C15: signed-index guards (errors not panics), immutability of standard channels and partition predicates, encodability and exact round trip through the MAC codecs of every frequency/DR the band tables hold (all 38 configurations), and exactness of the initial CFList masks. Behaviour after arbitrary AddChannel/Disable/Enable histories (lookups, CFList of custom channels) is runtime state and is not decided.",
+         "Trusts internal/tables, internal/absint, go/ssa dominators. ISM2400 frequencies that only NewChannelReq can carry are listed known findings.",
+         "DESIGN.md §3 C15"),
 }
 
 NOT_APPLICABLE = {
